@@ -17,5 +17,16 @@ for ID in C02 C03 C04 C05 C06 C07 C08 C10 C11 C13 C15 C16 C18 C01 C14 C19; do
   done
   echo "$ID $REF"
 done
+# thread-level models under shuttle: same VERIF_SEED => same schedules (counts of schedules, distinct
+# schedules and scheduling decisions per property), in two fresh processes
+for ID in C12 C07 C08; do
+  REF=""
+  for K in 1 2; do
+    /verif/shuttle/run.sh $ID --tier quick >/dev/null 2>&1
+    H=$(python3 -c "import json;d=json.load(open('/verif/shuttle/$ID-part.json'));d.pop('wall_s');print(json.dumps(d,sort_keys=True))" | md5sum | cut -d' ' -f1)
+    if [ -z "$REF" ]; then REF="$H"; elif [ "$REF" != "$H" ]; then echo "NOT DETERMINISTIC: $ID (shuttle) $H != $REF"; FAIL=2; fi
+  done
+  echo "$ID(shuttle) $REF"
+done
 rm -rf "$VERIF_DIR"
 exit $FAIL
